@@ -16,7 +16,9 @@
 EXTENDS Format, Json, IOUtils
 
 CONSTANT NChunks
-Recs == ndJsonDeserialize(IOEnv.TRACE)
+\* parsed once at start-up into a TLC register (TLC re-evaluates a definition that reads a file on every reference)
+ASSUME TLCSet(7, ndJsonDeserialize(IOEnv.TRACE))
+Recs == TLCGet(7)
 
 FormatVerdict(rec) ==
   LET r == Render(rec.fmt, rec.args)
